@@ -864,6 +864,11 @@ def nul_outcome_safe(F, g, c, is_noreturn, depth=0):
         if tgt is None:
             return True, "NUL branch is cut (ReportError)"
         w = g.cfg.path_avoiding((tgt, -1), reads, [])
+        if w is not None:
+            # a flag set only on the other branch decides later tests on this path (`bool ok = false; if (c == 'o') ok = ...; if (!ok) error`)
+            hit_ = flag_reach(g, tgt, reads, c)
+            if not hit_:
+                return True, "NUL takes the %s branch of `%s`; with the flags that keep their initial value on that path no further read is reachable" % (truth, render(par))
         return (w is None, "NUL takes the %s branch of `%s`, which reaches no further read" % (truth, render(par))
                 if w is None else "after NUL, `%s` %s branch can read again (blocks %s)" % (render(par), truth, w))
     if par["k"] in ("CXXMemberCallExpr", "CallExpr") and depth < 2:
@@ -911,6 +916,54 @@ def callee_sends_nul_to_error(F, g, call, var, nulval, is_noreturn):
         [n["i"] for n in h.walk() if n["k"] == "CXXMemberCallExpr" and n.get("calleeRec") == h.rec
          and n.get("callee", "").split("::")[-1].startswith(("Read", "DoRead"))]
     return bool(sw) and switch_nul(h, sw[0], nulval, reads2)[0]
+
+
+def flag_reach(g, start_block, reads, origin):
+    """reads reachable from start_block when tests of local flags are decided by the constant they still hold: a local with a
+    literal initialiser whose assignments all lie where they cannot reach `origin` again keeps that value until it is assigned
+    on the path"""
+    init = {}
+    for v in g.walk():
+        if v["k"] == "VarDecl" and kids(v) and cv(kids(v)[0]) is not None and v.get("declId"):
+            asg = [n for n in g.walk() if n["k"] in ("BinaryOperator", "CompoundAssignOperator") and n.get("op", "").endswith("=") and n.get("op") not in ("==", "!=", "<=", ">=") and
+                   strip(kids(n)[0]).get("declId") == v["declId"]]
+            amp = [n for n in g.walk() if n["k"] == "UnaryOperator" and n.get("op") in ("&", "++", "--") and strip(kids(n)[0]).get("declId") == v["declId"]]
+            if not amp and all(not g.cfg.before(a_, origin) for a_ in asg) and g.cfg.dominates(v, origin):
+                init[v["declId"]] = cv(kids(v)[0])
+    seen_, todo_ = set(), [(start_block, tuple(sorted(init.items())))]
+    hit_ = []
+    readset = {r_: g.cfg.pos[r_] for r_ in reads if r_ in g.cfg.pos}
+    while todo_:
+        b_, envt = todo_.pop()
+        if b_ is None or (b_, envt) in seen_:
+            continue
+        seen_.add((b_, envt))
+        env = dict(envt)
+        blk_ = g.cfg.blocks[b_]
+        for e_ in blk_.get("el", []):
+            n_ = g.nodes.get(e_)
+            if n_ is None:
+                continue
+            if n_["k"] in ("BinaryOperator", "CompoundAssignOperator") and n_.get("op", "").endswith("=") and n_.get("op") not in ("==", "!=", "<=", ">="):
+                d_ = strip(kids(n_)[0]).get("declId")
+                if d_ in env:
+                    if n_["k"] == "BinaryOperator" and cv(kids(n_)[1]) is not None:
+                        env[d_] = cv(kids(n_)[1])
+                    else:
+                        del env[d_]
+        hit_ += [r_ for r_, (rb_, _) in readset.items() if rb_ == b_]
+        ss_ = g.cfg.succ[b_]
+        cn_ = strip(g.nodes.get(blk_["cond"])) if blk_.get("cond") is not None else None
+        dec_ = None
+        if cn_ is not None and len(ss_) == 2:
+            pol_ = True
+            while cn_["k"] == "UnaryOperator" and cn_.get("op") == "!":
+                cn_, pol_ = strip(kids(cn_)[0]), not pol_
+            if cn_["k"] == "DeclRefExpr" and cn_.get("declId") in env:
+                dec_ = bool(env[cn_["declId"]]) == pol_
+        nxt = [ss_[0] if dec_ else ss_[1]] if dec_ is not None else list(ss_)
+        todo_ += [(x_, tuple(sorted(env.items()))) for x_ in nxt]
+    return hit_
 
 
 def decided_reach(h, pid, nulval, reads, start=None):
